@@ -322,6 +322,14 @@ def run_tool(case, ctx, opts=None, name='case'):
     d = ctx.fresh_dir(name)
     write_reference(ref, d)
     paths = vargen.write_gvfs(ref, case['records'], d)
+    if case.get('index_gvfs'):
+        # .idx files next to the GVFs (indexGVF), as a user with large inputs would have
+        import argparse, importlib
+        m = importlib.import_module('moPepGen.cli.index_gvf')
+        with drive.quiet():
+            for gp in paths:
+                m.index_gvf(argparse.Namespace(command='indexGVF', input_path=gp, quiet=True,
+                    debug_level=1))
     peps, dups, log = drive.call_variant(d, paths, opts or case['opts'])
     table = []
     tpath = d/'out_peptide_table.txt'
@@ -724,6 +732,9 @@ def check_headers(case, res):
                 if k:
                     known.append((k, seq, e['entry']))
                     continue
+                if crowded_truncation_signature(case, ref, e['backbone'], seq):
+                    known.append(('CV-crowded-truncated-product', seq, e['entry']))
+                    continue
             if w[0] == 'not-a-product' and e['backbone'] not in ref.txs:
                 rec = [r for r in case['records'] if r.get('id') == e['backbone']][0]
                 if realizable_somehow(seq, rec):
@@ -846,3 +857,23 @@ def circ_rare_signature(case, ref:Ref, rec, seq):
             if seq in prods:
                 return 'mixed'
     return None
+
+
+def crowded_truncation_signature(case, ref:Ref, tid, seq):
+    """ structural signature of the open finding CV-crowded-truncated-product: on a linear
+    backbone whose supplied records overlap one another (two records share a reference
+    position: an allele and a deletion at one site, an MNV merged from adjacent SNVs over a
+    deletion) the sequence is not realizable but is a proper prefix of a realizable product
+    (the product is cut at a record boundary instead of a cleavage site). Returns bool """
+    if tid not in ref.txs or case.get('planted'):
+        return False
+    recs = [r for r in case['records'] if r['tx'] == tid and r['kind'] == 'small']
+    spans = sorted((r['g'], r['g'] + len(r['ref'])) for r in recs)
+    if not any(a[1] > b[0] for a, b in zip(spans, spans[1:])):
+        return False
+    lin = [r for r in case['records'] if r['tx'] == tid and r['kind'] in ('small', 'as')]
+    try:
+        _, u, _ = M.linear_bounds(ref, tid, lin, dict(case['opts'], w2f=True), max_n=12)
+    except OverflowError:
+        return False
+    return seq not in u and any(len(x) > len(seq) and x.startswith(seq) for x in u)
